@@ -4,7 +4,6 @@ import (
 	"fmt"
 	"go/token"
 	"go/types"
-	"sort"
 	"strings"
 
 	"golang.org/x/tools/go/ssa"
@@ -669,15 +668,32 @@ func c12R20(c *Ctx) {
 			}, 0)
 			return out
 		}
-		cases := map[*types.Var]map[string]bool{}
-		add := func(f *types.Var, cs string) {
+		cases := map[string]map[string]bool{}
+		flagVar := map[string]*types.Var{}
+		add := func(f string, cs string) {
 			if cases[f] == nil {
 				cases[f] = map[string]bool{}
 			}
 			cases[f][cs] = true
 		}
-		flagStores := func(fn *ssa.Function) []*types.Var {
-			var out []*types.Var
+		// the flag as a path of field names from the step: `deployInputAvailable`, or `deployInput.available` when the flags
+		// of several stages live in values of one small struct type
+		flagPath := func(fa *ssa.FieldAddr) string {
+			path := fieldName(fieldAddrVar(fa))
+			x := fa.X
+			for d := 0; d < 3; d++ {
+				outer, ok := x.(*ssa.FieldAddr)
+				if !ok {
+					break
+				}
+				path = fieldName(fieldAddrVar(outer)) + "." + path
+				x = outer.X
+			}
+			flagVar[path] = fieldAddrVar(fa)
+			return path
+		}
+		flagStores := func(fn *ssa.Function) []string {
+			var out []string
 			eachInstr(fn, func(r instrRef) {
 				st, ok := r.I.(*ssa.Store)
 				if !ok {
@@ -689,7 +705,7 @@ func c12R20(c *Ctx) {
 				}
 				if b, isB := constBool(st.Val); isB && b {
 					if _, isBool := fieldAddrVar(fa).Type().Underlying().(*types.Basic); isBool {
-						out = append(out, fieldAddrVar(fa))
+						out = append(out, flagPath(fa))
 					}
 				}
 			})
@@ -703,7 +719,7 @@ func c12R20(c *Ctx) {
 					return
 				}
 				if b, isB := constBool(x.Val); isB && b {
-					add(fieldAddrVar(fa), caseOf(x))
+					add(flagPath(fa), caseOf(x))
 				}
 			case *ssa.Call:
 				h := x.Common().StaticCallee()
@@ -725,13 +741,10 @@ func c12R20(c *Ctx) {
 				})
 			}
 		})
-		var flags []*types.Var
-		for f := range cases {
-			flags = append(flags, f)
-		}
-		sort.Slice(flags, func(i, j int) bool { return flags[i].Name() < flags[j].Name() })
-		for _, f := range flags {
-			if !strings.HasSuffix(fieldName(f), "Available") && !strings.Contains(strings.ToLower(fieldName(f)), "available") {
+		flags := sortedKeys(cases)
+		for _, fp := range flags {
+			f := flagVar[fp]
+			if !strings.Contains(strings.ToLower(fp), "available") {
 				// other booleans set on the way (cancelled, …) are not once-only input flags
 				isGuard := false
 				for _, fn := range c.logicalBody(ps) {
@@ -746,9 +759,9 @@ func c12R20(c *Ctx) {
 				}
 			}
 			n++
-			cs := sortedKeys(cases[f])
-			c.verdict(len(cs) == 1 && cs[0] != "", rule, "flag:"+shortPkg(pkgPathOf(ps))+"."+fieldName(f), c.pos(ps.Pos()), "set under the case of stage `"+strings.Join(cs, ",")+"` only",
-				fmt.Sprintf("the flag %s is set while handling the input of more than one stage (%s): one stage's input is taken as given on behalf of another, and the real provision is then refused as a second one", fieldName(f), strings.Join(cs, ", ")))
+			cs := sortedKeys(cases[fp])
+			c.verdict(len(cs) == 1 && cs[0] != "", rule, "flag:"+shortPkg(pkgPathOf(ps))+"."+fp, c.pos(ps.Pos()), "set under the case of stage `"+strings.Join(cs, ",")+"` only",
+				fmt.Sprintf("the flag %s is set while handling the input of more than one stage (%s): one stage's input is taken as given on behalf of another, and the real provision is then refused as a second one", fp, strings.Join(cs, ", ")))
 		}
 	}
 	c.minCount(rule, "input-available flags", n, 5)
